@@ -47,7 +47,16 @@ pub fn iter_f(b: &B, o: &bsl::TxOuts) -> String {
             hints.push(if hi == Some(lo) && l == lo { lo.to_string() } else { format!("{}/{:?}/{}", lo, hi, l) });
             match pc(|| it.next()) {
                 Err(_) => return format!("[{}],hints=[{}],panic", items.join(";"), hints.join(",")),
-                Ok(None) => return format!("[{}],hints=[{}]", items.join(";"), hints.join(",")),
+                Ok(None) => {
+                    // after the end: the reported remaining length, and what one more `next()` answers
+                    let h1 = pc(|| it.size_hint().0.to_string()).unwrap_or_else(|_| "panic".into());
+                    let again = match pc(|| it.next().is_some()) {
+                        Err(_) => "panic".to_string(),
+                        Ok(true) => "some".into(),
+                        Ok(false) => format!("none/{}", pc(|| it.size_hint().0.to_string()).unwrap_or_else(|_| "panic".into())),
+                    };
+                    return format!("[{}],hints=[{}],after={}:{}", items.join(";"), hints.join(","), h1, again);
+                }
                 Ok(Some(x)) => items.push(format!("({})", txout_f(b, &x))),
             }
         }
@@ -213,13 +222,17 @@ pub fn touch_block(k: &bsl::Block) -> u64 {
 }
 
 /// one parse/visit entry point of the crate
-pub trait Ty<'a>: Sized + AsRef<[u8]> + PartialEq {
+pub trait Ty<'a>: Sized + AsRef<[u8]> + PartialEq + 'a {
     const NAME: &'static str;
     fn run<V: Visitor>(b: &'a [u8], n: usize, v: &mut V) -> SResult<'a, Self>;
     fn parse_(b: &'a [u8], n: usize) -> SResult<'a, Self>;
     fn f(bb: &B, x: &Self) -> String;
     fn touch(x: &Self) -> u64;
     fn len_(x: &Self) -> usize;
+    /// the real `Visit::self_visit` (None for the types that only implement `Parse`, and for `Witnesses`)
+    fn self_visit_<V: Visitor>(_x: &'a Self, _v: &mut V) -> Option<SResult<'a, Self>> {
+        None
+    }
 }
 macro_rules! parse_ty {
     ($T:ident, $name:expr, $f:path, $touch:path) => {
@@ -261,6 +274,9 @@ macro_rules! visit_ty {
             }
             fn len_(x: &Self) -> usize {
                 Visit::len(x)
+            }
+            fn self_visit_<V: Visitor>(x: &'a Self, v: &mut V) -> Option<SResult<'a, Self>> {
+                Some(Visit::self_visit(x, v))
             }
         }
     };
@@ -369,6 +385,7 @@ fn visit_t<'a, T: Ty<'a>>(ctx: &Ctx, b: &'a [u8], n: usize, pol: Option<usize>) 
             Ok(pr) => Ok(pr),
             Err(e) => Err(e.clone()),
         };
+        o.push(format!("selfv={}", oracle::self_visit_oracle::<T>(b, n, pol, &res)));
         match pol {
             None => {
                 o.push(format!("part={}", oracle::part::<T>(b, &res)));
